@@ -55,6 +55,75 @@ pub fn build_hooked() -> Result<PathBuf, String> {
     build("bb-hooked", true)
 }
 
+/// The delay injector (compiled from harness/ptdelay.c on first use) and the comma-separated
+/// addresses, taken from the symbol table of `bin`, of the standard library's entry points
+/// through which a thread gets at standard output. None when the tool cannot be built or used
+/// (no C compiler, ptrace forbidden) or the binary has no such symbols.
+pub fn ptdelay_tool(bin: &Path) -> Option<(PathBuf, String)> {
+    use std::sync::{Mutex, OnceLock};
+    static TOOL: OnceLock<Option<PathBuf>> = OnceLock::new();
+    static ADDRS: OnceLock<Mutex<std::collections::HashMap<PathBuf, Option<String>>>> = OnceLock::new();
+    let tool = TOOL
+        .get_or_init(|| {
+            let root = crate::ev::root();
+            let out = PathBuf::from(format!("{}/.target/tools/ptdelay", root));
+            let src = format!("{}/harness/ptdelay.c", root);
+            let _ = std::fs::create_dir_all(format!("{}/.target/tools", root));
+            let fresh = match (std::fs::metadata(&out).and_then(|m| m.modified()), std::fs::metadata(&src).and_then(|m| m.modified())) {
+                (Ok(o), Ok(s)) => o >= s,
+                _ => false,
+            };
+            if !fresh {
+                let tmp = format!("{}.{}", out.display(), std::process::id());
+                let ok = Command::new("cc").args(["-O2", "-o", &tmp, &src]).output().map(|o| o.status.success()).unwrap_or(false);
+                if !ok || std::fs::rename(&tmp, &out).is_err() {
+                    return None;
+                }
+            }
+            // does ptrace work here at all?
+            let ok = Command::new(&out).args(["0", "1", "-", "ffffffffffffffff", "--", "true"]).output().map(|o| o.status.success()).unwrap_or(false);
+            if ok {
+                Some(out)
+            } else {
+                None
+            }
+        })
+        .clone()?;
+    let map = ADDRS.get_or_init(|| Mutex::new(Default::default()));
+    let mut g = map.lock().unwrap();
+    let addrs = g
+        .entry(bin.to_path_buf())
+        .or_insert_with(|| {
+            let out = Command::new("nm").arg("-C").arg(bin).output().ok()?;
+            let text = String::from_utf8_lossy(&out.stdout).to_string();
+            let mut v: Vec<String> = Vec::new();
+            for l in text.lines() {
+                let mut it = l.splitn(3, ' ');
+                let (a, k, name) = (it.next()?, it.next().unwrap_or(""), it.next().unwrap_or(""));
+                if !(k == "t" || k == "T") {
+                    continue;
+                }
+                let hit = name == "std::io::stdio::_print"
+                    || name == "std::io::stdio::stdout"
+                    || name == "std::io::stdio::print_to"
+                    || ((name.starts_with("<std::io::stdio::Stdout as std::io::Write>::") || name.starts_with("<&std::io::stdio::Stdout as std::io::Write>::")))
+                    || name == "<std::io::stdio::Stdout>::lock"
+                    || name == "std::io::stdio::Stdout::lock";
+                if hit {
+                    v.push(a.trim_start_matches('0').to_string());
+                }
+            }
+            if v.is_empty() {
+                None
+            } else {
+                v.truncate(60);
+                Some(v.join(","))
+            }
+        })
+        .clone()?;
+    Some((tool, addrs))
+}
+
 pub struct CliOut {
     pub status: Option<i32>,
     pub stdout: String,
@@ -156,11 +225,16 @@ pub struct SpawnOpts {
     /// thread is followed by a delay, which stretches the gap between two writes that belong
     /// together (a schedule perturbation at a point where the kernel may pre-empt anyway)
     pub strace_write_delay_us: Option<u32>,
+    /// run under `ptdelay` (harness/ptdelay.c): every arrival of a thread at one of the standard
+    /// library's entry points for standard output (`_print`, `<Stdout as Write>::*`,
+    /// `Stdout::lock`, `stdout()`) keeps that thread - and only that thread - stopped for a
+    /// pseudo-random time of up to the given number of microseconds: (max_us, seed)
+    pub ptdelay: Option<(u32, u64)>,
 }
 
 impl Default for SpawnOpts {
     fn default() -> Self {
-        SpawnOpts { env: vec![], pin_cpu: None, valgrind: false, strace_write_delay_us: None }
+        SpawnOpts { env: vec![], pin_cpu: None, valgrind: false, strace_write_delay_us: None, ptdelay: None }
     }
 }
 
@@ -177,6 +251,11 @@ impl Engine {
             c.args(["-f", "-q", "-e", "trace=write", "-e", &format!("inject=write:delay_exit={}", us), "-o", "/dev/null"]);
             c.arg(bin);
             c
+        } else if let (Some((max_us, seed)), Some((tool, addrs))) = (opts.ptdelay, ptdelay_tool(bin)) {
+            let mut c = Command::new(tool);
+            c.args([max_us.to_string(), seed.to_string(), format!("{}/ptdelay.stats", workdir.display()), addrs, "--".to_string()]);
+            c.arg(bin);
+            c
         } else if let Some(cpu) = opts.pin_cpu {
             let mut c = Command::new("taskset");
             c.args(["-c", &cpu.to_string()]);
@@ -191,8 +270,8 @@ impl Engine {
         }
         let mut child = cmd.spawn().map_err(|e| format!("spawn {}: {}", bin.display(), e))?;
         let mut pid = child.id();
-        if opts.strace_write_delay_us.is_some() {
-            // the engine is strace's child: /proc verdicts must look at the engine itself
+        if opts.strace_write_delay_us.is_some() || (opts.ptdelay.is_some() && !opts.valgrind && ptdelay_tool(bin).is_some()) {
+            // the engine is strace's (ptdelay's) child: /proc verdicts must look at the engine itself
             let t_end = Instant::now() + Duration::from_secs(2);
             loop {
                 let kids = std::fs::read_to_string(format!("/proc/{}/task/{}/children", child.id(), child.id())).unwrap_or_default();
@@ -420,6 +499,14 @@ impl Engine {
 
     pub fn out_lines_since(&self, idx: usize) -> Vec<&Event> {
         self.transcript[idx..].iter().filter(|e| e.dir == Dir::Out).collect()
+    }
+
+    /// (arrivals at a breakpoint, arrivals that were delayed) as last written by `ptdelay`
+    /// (rewritten every 64 arrivals and at exit).
+    pub fn ptdelay_stats(&self) -> Option<(u64, u64)> {
+        let t = std::fs::read_to_string(self.workdir.join("ptdelay.stats")).ok()?;
+        let num = |key: &str| -> Option<u64> { t.split_whitespace().find_map(|w| w.strip_prefix(key)).and_then(|v| v.parse().ok()) };
+        Some((num("hits=")?, num("delayed=")?))
     }
 
     pub fn keep_workdir(&mut self) {
